@@ -155,7 +155,10 @@ def write_bam(spec, bam, path):
                 a.next_reference_id = -1
                 a.next_reference_start = -1
             a.set_tag("RG", r["rg"])
-            a.set_tag("MD", md_tag(cseq[r["contig"]], r["pos"], r["cigar"], r["seq"]))
+            ref_seq = cseq[r["contig"]]
+            for pos_, base_ in (r.get("md_ref") or {}).items():  # this read was aligned against a reference with other bases here
+                ref_seq = ref_seq[: int(pos_)] + base_ + ref_seq[int(pos_) + 1:]
+            a.set_tag("MD", md_tag(ref_seq, r["pos"], r["cigar"], r["seq"]))
             out.write(a)
     # input is already coordinate sorted (stable); sort anyway for safety with equal keys
     pysam.sort("-o", path, tmp)
